@@ -302,7 +302,7 @@ pub fn check() -> PropertyCheck {
         subs: vec![
             Box::new(Pbt {
                 name: "fault-scripts-random",
-                quick: 40_000,
+                quick: 200_000,
                 thorough: 2_000_000,
                 strat,
                 test,
